@@ -128,22 +128,24 @@ Qed.
 
 (** a binary operation with a plain tensor of the SAME shape that is only known to agree on observed positions *)
 Lemma apply_same_shape_agree : forall op a a' vb vb',
-    wagree a a' -> weight a <> None ->
+    wagree a a' ->
     shape vb = shape (value a) -> shape vb' = shape vb ->
     (forall m, inr (shape vb) m -> observed a m -> at_ vb m = at_ vb' m) ->
     ragree wagree (apply_operation a (OT vb) op false) (apply_operation a' (OT vb') op false).
 Proof.
-  intros op a a' vb vb' H Hn Sb Sb' Hb. pose proof H as (W & W' & Hs & Hw & Hv).
+  intros op a a' vb vb' H Sb Sb' Hb. pose proof H as (W & W' & Hs & Hw & Hv).
   unfold apply_operation, tzip2. rewrite Sb', Sb, <- Hs, bshape_refl. cbn [shape].
   unfold wf in W, W'.
-  destruct (weight a) as [w|] eqn:E; [|congruence].
-  destruct (weight a') as [w'|] eqn:E'; [|contradiction].
-  destruct Hw as [Hws Hwv].
-  unfold expand_weight. rewrite <- Hws, W, shape_eqb_refl. cbn [bind].
-  unfold mk_weightedN. cbn [shape]. rewrite <- Hws, W, shape_eqb_refl.
-  simpl. unfold wagree, wf, observed; simpl. repeat split; auto.
-  - congruence.
-  - intros m Hm Ho. rewrite !bidx_id by assumption.
+  destruct (weight a) as [w|] eqn:E; destruct (weight a') as [w'|] eqn:E'; try contradiction.
+  - destruct Hw as [Hws Hwv].
+    unfold expand_weight. rewrite <- Hws, W, shape_eqb_refl. cbn [bind].
+    unfold mk_weightedN. cbn [shape]. rewrite <- Hws, W, shape_eqb_refl.
+    simpl. unfold wagree, wf, observed; simpl. repeat split; auto.
+    + congruence.
+    + intros m Hm Ho. rewrite !bidx_id by assumption.
+      rewrite Hv, Hb; auto; try (now rewrite Sb); unfold observed; now rewrite E.
+  - simpl. unfold wagree, wf, observed; simpl. repeat split; auto.
+    intros m Hm _. rewrite !bidx_id by assumption.
     rewrite Hv, Hb; auto; try (now rewrite Sb); unfold observed; now rewrite E.
 Qed.
 
@@ -178,45 +180,257 @@ Proof.
   - inversion H; subst; reflexivity.
 Qed.
 
-(** C06, noise (scalar rule) is FALSE of the code (finding F3): model^2 is summed over every entry of every
-    real visit, including entries where y is missing.  Witness: 2 individuals x 1 visit x 2 features, y[0,0,1]
-    missing; two model tensors that differ only at that unobserved entry give different variances
-    (25/3 against 0), and the first is not the residual mean square over observed entries (0). *)
-Theorem noise_scalar_refuted :
-  exists (y : wt) (model model' : tensor atom) (v v' r : atom),
-    wf y /\ shape model = shape (value y) /\ shape model' = shape model /\
-    (forall m, inr (shape model) m -> observed y m -> at_ model m = at_ model' m) /\
-    noise_var_scalar y model = Ok v /\ noise_var_scalar y model' = Ok v' /\
-    rss_over_observed y model = Ok r /\
-    atom_same v v' = false /\ atom_same v r = false /\ atom_same v' r = true.
+(** a binary operation with a plain tensor that broadcasts to the shape of [a] keeps the shape and the weights of [a] *)
+Lemma apply_plain_keeps : forall a vb op (rev : bool) r, wf a ->
+    bshape (if rev then shape vb else shape (value a)) (if rev then shape (value a) else shape vb)
+    = Some (shape (value a)) ->
+    apply_operation a (OT vb) op rev = Ok r ->
+    shape (value r) = shape (value a) /\ weight r = weight a.
 Proof.
-  exists (mkW w_values (Some (tmap to_bool_weight w_mask))), w_model_a, w_model_b.
-  eexists _, _, _.
-  split; [reflexivity|]. split; [reflexivity|]. split; [reflexivity|].
-  split.
-  { intros m Hm Ho. unfold inr in Hm. simpl in Hm.
-    destruct Hm as [Hm|[Hm|[Hm|[Hm|[]]]]]; subst m; try reflexivity.
-    exfalso. apply Ho. reflexivity. }
-  split; [vm_compute; reflexivity|]. split; [vm_compute; reflexivity|]. split; [vm_compute; reflexivity|].
-  vm_compute. repeat split.
+  intros a vb op rev r W B H. unfold apply_operation, tzip2 in H. unfold wf in W.
+  destruct rev; rewrite B in H; cbn [shape] in H;
+    (destruct (weight a) as [wa|] eqn:E;
+     [ unfold expand_weight in H; rewrite W, shape_eqb_refl in H; cbn [bind] in H;
+       unfold mk_weightedN in H; cbn [shape] in H; rewrite W, shape_eqb_refl in H
+     | ]; inversion H; subst; simpl; auto).
 Qed.
 
-(** C06, noise (diagonal rule), PARTIAL: the ingredients of the per-feature variance that involve y — y_L2_per_ft,
-    n_obs_per_ft and the statistic y_x_model on observed positions — do not change when y changes under the mask
-    or the model changes where y is not observed.  Missing for the full statement: the same invariance carried
-    through the last two dunder calls (-2 * y_x_model + model_x_model) and the final division. *)
-Theorem noise_diagonal_observed_only_partial : forall y y' model model',
-    wagree y y' -> weight y <> None ->
+Lemma tmap_teq : forall A B (f : A -> B) (a b : tensor A), teq a b -> teq (tmap f a) (tmap f b).
+Proof. intros A B f a b [Hs Hv]. split; simpl; [assumption|]. intros m Hm. now rewrite Hv. Qed.
+
+(** plain torch operations see equal tensors: same error or equal results *)
+Lemma tbin_teq : forall op a a' b b', teq a a' -> teq b b' -> ragree teq (tbin op a b) (tbin op a' b').
+Proof.
+  intros op a a' b b' [Sa Ha] [Sb Hb]. unfold tbin, tzip2. rewrite <- Sa, <- Sb.
+  destruct (bshape (shape a) (shape b)) as [s|] eqn:E; simpl; [|reflexivity].
+  destruct (bshape_expandable _ _ _ E) as [E1 E2].
+  split; [reflexivity|]. simpl. intros m Hm.
+  rewrite Ha, Hb; eauto using bidx_inr.
+Qed.
+
+(** summed = sum_dim(-2 * y_x_model + model_x_model, ...) for ANY set of summed axes: independent of y under the
+    mask and of the model where y is masked *)
+Lemma noise_summed_agree : forall d y y' model model',
+    wagree y y' ->
+    shape model = shape (value y) -> shape model' = shape model ->
+    (forall m, inr (shape model) m -> observed y m -> at_ model m = at_ model' m) ->
+    ragree teq (noise_summed d y model) (noise_summed d y' model').
+Proof.
+  intros d y y' model model' H Sm Sm' Hm. pose proof H as (W & W' & Hs & Hw & Hv).
+  unfold noise_summed, y_x_model.
+  pose proof (apply_same_shape_agree amul y y' model model' H Sm Sm' Hm) as H1.
+  destruct (apply_operation y (OT model) amul false) as [a|e] eqn:Ea;
+    destruct (apply_operation y' (OT model') amul false) as [a'|e'] eqn:Ea'; simpl in H1; try contradiction;
+    [|exact H1].
+  cbn [bind].
+  assert (B1 : bshape (shape (value y)) (shape model) = Some (shape (value y))) by (rewrite Sm; apply bshape_refl).
+  destruct (apply_plain_keeps y model amul false a W B1 Ea) as [Sa Wa].
+  pose proof H1 as (WA & _).
+  set (c := OT (scalar0 (Fin (-2 # 1)%Q))).
+  pose proof (apply_operation_agree amul true a a' c c H1 (teq_refl _ _)) as H2.
+  destruct (apply_operation a c amul true) as [b|e] eqn:Eb;
+    destruct (apply_operation a' c amul true) as [b'|e'] eqn:Eb'; simpl in H2; try contradiction;
+    [|exact H2].
+  cbn [bind].
+  destruct (apply_plain_keeps a (scalar0 (Fin (-2 # 1)%Q)) amul true b WA eq_refl Eb) as [Sb Wb].
+  assert (H3 : ragree wagree (apply_operation b (OT (model_x_model model)) aadd false)
+                             (apply_operation b' (OT (model_x_model model')) aadd false)).
+  { apply apply_same_shape_agree; [exact H2 | | exact Sm' |].
+    - simpl. now rewrite Sb, Sa.
+    - intros m Hin Ho. simpl. simpl in Hin. rewrite Hm; auto.
+      unfold observed in *. now rewrite Wb, Wa in Ho. }
+  eapply bind_ragree; [exact H3|]. intros t t' Ht. apply sum_dim_ignores_masked. exact Ht.
+Qed.
+
+Lemma noise_var_of_agree : forall p p' s s', pair_teq p p' -> teq s s' ->
+    ragree teq (noise_var_of p s) (noise_var_of p' s').
+Proof.
+  intros p p' s s' [Hp1 Hp2] Hs. unfold noise_var_of.
+  eapply bind_ragree; [apply tbin_teq; eassumption|]. intros n n' Hn.
+  apply tbin_teq; [exact Hn | now apply tmap_teq].
+Qed.
+
+(** C06, noise: BOTH update rules (scalar and per feature) use observed entries only.  If y changes under the mask
+    (ANY atoms there: NaN, infinities, huge) and the model tensor changes at entries where y is not observed,
+    the updated variance is the same (or the rule fails with the same error). *)
+Theorem noise_observed_only : forall y y' model model',
+    wagree y y' ->
+    shape model = shape (value y) -> shape model' = shape model ->
+    (forall m, inr (shape model) m -> observed y m -> at_ model m = at_ model' m) ->
+    ragree teq (noise_var_scalar y model) (noise_var_scalar y' model') /\
+    ragree teq (noise_var_diagonal y model) (noise_var_diagonal y' model').
+Proof.
+  intros y y' model model' H Sm Sm' Hm. split.
+  - unfold noise_var_scalar, y_L2_n_obs.
+    eapply bind_ragree.
+    { eapply bind_ragree; [apply sqr_agree, H|]. intros a b Hab. apply wsum_dim_ignores_masked, Hab. }
+    intros p p' Hp. eapply bind_ragree; [now apply noise_summed_agree|].
+    intros s s' Hs. now apply noise_var_of_agree.
+  - unfold noise_var_diagonal, y_L2_n_obs_per_ft.
+    eapply bind_ragree.
+    { eapply bind_ragree; [apply sqr_agree, H|]. intros a b Hab. apply wsum_dim_ignores_masked, Hab. }
+    intros p p' Hp. eapply bind_ragree; [now apply noise_summed_agree|].
+    intros s s' Hs. now apply noise_var_of_agree.
+Qed.
+
+(** the ingredients on their own (statistics stored in the state): y_L2 / n_obs, their per-feature twins and
+    y_x_model on observed positions *)
+Theorem noise_ingredients_observed_only : forall y y' model model',
+    wagree y y' ->
     shape model = shape (value y) -> shape model' = shape model ->
     (forall m, inr (shape model) m -> observed y m -> at_ model m = at_ model' m) ->
     ragree pair_teq (y_L2_n_obs_per_ft y) (y_L2_n_obs_per_ft y') /\
     ragree pair_teq (y_L2_n_obs y) (y_L2_n_obs y') /\
     ragree wagree (y_x_model y model) (y_x_model y' model').
 Proof.
-  intros y y' model model' H Hn Sm Sm' Hm. repeat split.
+  intros y y' model model' H Sm Sm' Hm. repeat split.
   - unfold y_L2_n_obs_per_ft. eapply bind_ragree; [apply sqr_agree, H|]. intros a b Hab.
     apply wsum_dim_ignores_masked, Hab.
   - unfold y_L2_n_obs. eapply bind_ragree; [apply sqr_agree, H|]. intros a b Hab.
     apply wsum_dim_ignores_masked, Hab.
   - unfold y_x_model. apply apply_same_shape_agree; assumption.
+Qed.
+
+(* ------------------------------------------------------------------ noise rules and padding *)
+
+Lemma apply_plain_spec : forall a vb op (rev : bool), wf a ->
+    bshape (if rev then shape vb else shape (value a)) (if rev then shape (value a) else shape vb)
+    = Some (shape (value a)) ->
+    exists r, apply_operation a (OT vb) op rev = Ok r /\ weight r = weight a /\
+      shape (value r) = shape (value a) /\
+      forall m, at_ (value r) m =
+                if rev then op (at_ vb (bidx (shape vb) m)) (at_ (value a) (bidx (shape (value a)) m))
+                else op (at_ (value a) (bidx (shape (value a)) m)) (at_ vb (bidx (shape vb) m)).
+Proof.
+  intros a vb op rev W B. unfold apply_operation, tzip2. unfold wf in W.
+  destruct rev; rewrite B; cbn [shape]; destruct (weight a) as [wa|] eqn:E.
+  all: try (unfold expand_weight; rewrite W, shape_eqb_refl; cbn [bind];
+       unfold mk_weightedN; cbn [shape]; rewrite W, shape_eqb_refl).
+  all: eexists; (split; [reflexivity|]); simpl; auto.
+Qed.
+
+Lemma noise_summed_direct : forall d y model, wf y -> shape model = shape (value y) ->
+    ragree teq (noise_summed d y model) (sum_dim azero d (OW (nll_full f_tot y model))).
+Proof.
+  intros d y model W Sm. unfold noise_summed, y_x_model.
+  assert (B1 : bshape (shape (value y)) (shape model) = Some (shape (value y))) by (rewrite Sm; apply bshape_refl).
+  destruct (apply_plain_spec y model amul false W B1) as (a & Ea & Wa & Sa & Va).
+  rewrite Ea. cbn [bind].
+  assert (WA : wf a) by (unfold wf in *; rewrite Wa, Sa; exact W).
+  destruct (apply_plain_spec a (scalar0 (Fin (-2 # 1)%Q)) amul true WA eq_refl) as (b & Eb & Wb & Sb & Vb).
+  rewrite Eb. cbn [bind].
+  assert (WB : wf b) by (unfold wf in *; rewrite Wb, Sb; exact WA).
+  assert (B3 : bshape (shape (value b)) (shape (model_x_model model)) = Some (shape (value b))).
+  { simpl. rewrite Sm, Sb, Sa. apply bshape_refl. }
+  destruct (apply_plain_spec b (model_x_model model) aadd false WB B3) as (c & Ec & Wc & Sc & Vc).
+  rewrite Ec. cbn [bind].
+  apply sum_dim_ignores_masked. simpl.
+  assert (WC : wf c) by (unfold wf in *; rewrite Wc, Sc; exact WB).
+  unfold wagree. split; [exact WC|]. split; [exact W|].
+  split; [simpl; now rewrite Sc, Sb, Sa|].
+  split.
+  { rewrite Wc, Wb, Wa. simpl. destruct (weight y); simpl; [apply teq_refl | exact I]. }
+  intros m Hm _. rewrite Sc, Sb, Sa in Hm.
+  pose proof (bidx_id _ _ Hm) as Ei.
+  rewrite Vc, Vb, Va. simpl. rewrite Sb, Sa, Sm, !Ei. reflexivity.
+Qed.
+
+Lemma sqr_direct : forall y model, wf y -> sqr y = Ok (nll_full f_sq y model).
+Proof.
+  intros y model W. unfold sqr, wmap, valued, mk_weightedN, nll_full, f_sq, filled, wf in *. simpl.
+  destruct (weight y) as [w|]; [|reflexivity]. simpl. now rewrite W, shape_eqb_refl.
+Qed.
+
+Lemma pad_shape_length : forall p k rs, p < length rs -> length (pad_shape p k rs) = length rs.
+Proof.
+  intros p k rs H. unfold pad_shape. rewrite app_length, firstn_length. cbn [length]. rewrite skipn_length. lia.
+Qed.
+
+Lemma ragree_trans : forall A (P : A -> A -> Prop), (forall a b c, P a b -> P b c -> P a c) ->
+    forall r1 r2 r3, ragree P r1 r2 -> ragree P r2 r3 -> ragree P r1 r3.
+Proof. intros A P T [a|e] [b|e'] [c|e'']; simpl; intros; try contradiction; eauto; congruence. Qed.
+
+Lemma ragree_teq_sym : forall A (r1 r2 : res (tensor A)), ragree teq r1 r2 -> ragree teq r2 r1.
+Proof. intros A [a|e] [b|e']; simpl; intros; try contradiction; auto using teq_sym. Qed.
+
+Lemma pair_teq_trans : forall A B (p q r : tensor A * tensor B), pair_teq p q -> pair_teq q r -> pair_teq p r.
+Proof. intros A B p q r [H1 H2] [H3 H4]. split; eapply teq_trans; eassumption. Qed.
+
+(** weighted sums through the argument handling of wsum_dim / sum_dim: padding along a summed axis is invisible *)
+Lemma sums_padding : forall fill d R p k g t w, wf t -> weight t = Some w -> p < ndim t ->
+    bind (get_dim (ndim t) d) (torch_sum_mask (ndim t)) = Ok R -> nth p R false = true ->
+    ragree pair_teq (wsum_dim fill d (wpad p k g t)) (wsum_dim fill d t) /\
+    ragree teq (sum_dim fill d (OW (wpad p k g t))) (sum_dim fill d (OW t)).
+Proof.
+  intros fill d R p k g t w W E Hp HR Hn.
+  assert (Hd : ndim (wpad p k g t) = ndim t) by (unfold ndim; simpl; now apply pad_shape_length).
+  pose proof (wsum_mask_padding fill R p k g t w W E Hp Hn) as HP.
+  unfold wsum_dim, sum_dim, wsum_only, wsum. rewrite Hd. simpl weight. rewrite E.
+  destruct (get_dim (ndim t) d) as [dim|e]; cbn [bind] in HR; [|discriminate]. cbn [bind]. rewrite HR. cbn [bind].
+  split; [exact HP | exact (proj1 HP)].
+Qed.
+
+Lemma nll_full_pad : forall f y w model p k gy gm, wf y -> weight y = Some w -> shape model = shape (value y) ->
+    wagree (nll_full f (wpad p k gy y) (tpad p k gm model))
+           (wpad p k (fun m => f m (gy m) (gm m)) (nll_full f y model)).
+Proof.
+  intros f y w model p k gy gm W E Sm. unfold wf in W. rewrite E in W.
+  unfold wagree, wf, observed, nll_full, wpad; simpl. rewrite E. simpl.
+  repeat split; auto; try (now rewrite W).
+  intros m Hm Ho. rewrite Sm.
+  destruct (Nat.ltb (nth p m 0) (nth p (shape (value y)) 0)); reflexivity.
+Qed.
+
+Lemma nll_sums_padding : forall f d R y w model p k gy gm,
+    wf y -> weight y = Some w -> shape model = shape (value y) -> p < length (shape (value y)) ->
+    bind (get_dim (length (shape (value y))) d) (torch_sum_mask (length (shape (value y)))) = Ok R ->
+    nth p R false = true ->
+    ragree pair_teq (wsum_dim azero d (nll_full f (wpad p k gy y) (tpad p k gm model)))
+                    (wsum_dim azero d (nll_full f y model)) /\
+    ragree teq (sum_dim azero d (OW (nll_full f (wpad p k gy y) (tpad p k gm model))))
+               (sum_dim azero d (OW (nll_full f y model))).
+Proof.
+  intros f d R y w model p k gy gm W E Sm Hp HR Hn.
+  pose proof (nll_full_pad f y w model p k gy gm W E Sm) as HA.
+  set (n0 := nll_full f y model) in *.
+  assert (Wn : wf n0) by (unfold n0, nll_full, wf; simpl; exact W).
+  assert (En : weight n0 = Some w) by (unfold n0, nll_full; simpl; exact E).
+  destruct (sums_padding azero d R p k (fun m => f m (gy m) (gm m)) n0 w Wn En Hp HR Hn) as [P1 P2].
+  split.
+  - eapply ragree_trans; [apply pair_teq_trans | apply wsum_dim_ignores_masked, HA | exact P1].
+  - eapply ragree_trans; [apply teq_trans | | exact P2].
+    apply (sum_dim_ignores_masked azero d (OW _) (OW _)). exact HA.
+Qed.
+
+(** C06, noise and padding: k more visits with weight 0 — ANY y values and ANY model values in them — change neither
+    update rule's variance *)
+Theorem noise_padding : forall y w model k gy gm,
+    wf y -> weight y = Some w -> length (shape (value y)) = 3 -> shape model = shape (value y) ->
+    ragree teq (noise_var_scalar (wpad VISIT_POS k gy y) (tpad VISIT_POS k gm model)) (noise_var_scalar y model) /\
+    ragree teq (noise_var_diagonal (wpad VISIT_POS k gy y) (tpad VISIT_POS k gm model)) (noise_var_diagonal y model).
+Proof.
+  intros y w model k gy gm W E L3 Sm.
+  set (yp := wpad VISIT_POS k gy y). set (mp := tpad VISIT_POS k gm model).
+  assert (Wp : wf yp).
+  { unfold yp, wf, wpad. simpl. rewrite E. simpl. unfold wf in W. rewrite E in W. now rewrite W. }
+  assert (Sp : shape mp = shape (value yp)) by (unfold mp, yp; simpl; now rewrite Sm).
+  assert (Hp : VISIT_POS < length (shape (value y))) by (unfold VISIT_POS; lia).
+  assert (main : forall d R,
+             bind (get_dim (length (shape (value y))) d) (torch_sum_mask (length (shape (value y)))) = Ok R ->
+             nth VISIT_POS R false = true ->
+             ragree teq (bind (bind (sqr yp) (fun y2 => wsum_dim azero d y2))
+                              (fun p => bind (noise_summed d yp mp) (noise_var_of p)))
+                        (bind (bind (sqr y) (fun y2 => wsum_dim azero d y2))
+                              (fun p => bind (noise_summed d y model) (noise_var_of p)))).
+  { intros d R HR Hn.
+    rewrite (sqr_direct yp mp Wp), (sqr_direct y model W). cbn [bind].
+    eapply bind_ragree.
+    { exact (proj1 (nll_sums_padding f_sq d R y w model VISIT_POS k gy gm W E Sm Hp HR Hn)). }
+    intros p p' Hpp. eapply bind_ragree with (P := teq); [|intros s s' Hs; now apply noise_var_of_agree].
+    eapply ragree_trans; [apply teq_trans | apply noise_summed_direct; assumption |].
+    eapply ragree_trans; [apply teq_trans | | apply ragree_teq_sym, noise_summed_direct; assumption].
+    exact (proj2 (nll_sums_padding f_tot d R y w model VISIT_POS k gy gm W E Sm Hp HR Hn)). }
+  split.
+  - apply (main DimDefault [true; true; true]); [rewrite L3|]; reflexivity.
+  - apply (main (ButDim [LVL_FT]) [false; true; true]); [rewrite L3|]; reflexivity.
 Qed.
